@@ -76,11 +76,19 @@ func Harness_C08_Locations() {
 	w.emit("", unit, "/p:")
 	w.emit("method", 2*unit, verb+":")
 	w.emit("ret", 3*unit, "return ok")
+	redecl := 0
 	if reopen {
 		w.blank(1)
 		w.emit("app2", 0, "App:")
 		w.emit("type2", unit, "!type U:")
 		w.emit("field2", 2*unit, "g <: string")
+		// the type T re-opened too, its field f declared again (plain, set or sequence) next to a new field
+		redecl = nd.IntRange("field-declared-again-as", 0, 3) // 0: T not re-opened
+		if redecl > 0 {
+			w.emit("typeT2", unit, "!type T:")
+			w.emit("fieldf2", 2*unit, "f <: "+[]string{"", "int", "set of int", "sequence of int"}[redecl])
+			w.emit("fieldh", 2*unit, "h <: string")
+		}
 	}
 	mod, err, crashed, _ := feCompileText(w.text)
 	nd.Assert("loc:compiles", !crashed && err == nil && mod != nil)
@@ -108,10 +116,22 @@ func Harness_C08_Locations() {
 		nd.Assert("loc:application-end-not-before-start", c08EndOK(sc))
 	}
 	t := app.Types["T"]
-	nd.Assert("loc:type", t != nil && len(t.SourceContexts) == 1 && c08At(t.SourceContexts[0], w.pos["type"]) && c08EndOK(t.SourceContexts[0]))
-	if t != nil {
-		f := t.GetTuple().GetAttrDefs()["f"]
-		nd.Assert("loc:field", f != nil && len(f.SourceContexts) == 1 && c08At(f.SourceContexts[0], w.pos["field"]) && c08EndOK(f.SourceContexts[0]))
+	if redecl > 0 {
+		nd.Assert("loc:re-opened-type-one-location-per-declaration-in-order", t != nil && len(t.SourceContexts) == 2 &&
+			c08At(t.SourceContexts[0], w.pos["type"]) && c08At(t.SourceContexts[1], w.pos["typeT2"]) && c08EndOK(t.SourceContexts[1]))
+		if t != nil {
+			f := t.GetTuple().GetAttrDefs()["f"]
+			nd.Assert("loc:field-declared-again-one-location-per-declaration-in-order", f != nil && len(f.SourceContexts) == 2 &&
+				c08At(f.SourceContexts[0], w.pos["field"]) && c08At(f.SourceContexts[1], w.pos["fieldf2"]))
+			h := t.GetTuple().GetAttrDefs()["h"]
+			nd.Assert("loc:new-field-of-re-opened-type", h != nil && len(h.SourceContexts) == 1 && c08At(h.SourceContexts[0], w.pos["fieldh"]))
+		}
+	} else {
+		nd.Assert("loc:type", t != nil && len(t.SourceContexts) == 1 && c08At(t.SourceContexts[0], w.pos["type"]) && c08EndOK(t.SourceContexts[0]))
+		if t != nil {
+			f := t.GetTuple().GetAttrDefs()["f"]
+			nd.Assert("loc:field", f != nil && len(f.SourceContexts) == 1 && c08At(f.SourceContexts[0], w.pos["field"]) && c08EndOK(f.SourceContexts[0]))
+		}
 	}
 	ep := app.Endpoints["e"]
 	nd.Assert("loc:endpoint", ep != nil && len(ep.SourceContexts) == 1 && c08At(ep.SourceContexts[0], w.pos["endpoint"]) && c08EndOK(ep.SourceContexts[0]))
